@@ -46,7 +46,9 @@ def _case(draw, tier):
     hstate = {n: draw(st.sampled_from(["same", "changed", "norecord"])) for n in names} if hashing else {}
     return {"desc": desc, "backend": "slurm", "vector": vec, "hashing": hashing, "hstate": hstate,
             "patterns": draw(st.one_of(st.just([]), st.just([]), gen.patterns(names))),
-            "future_source": draw(st.sampled_from([False, False, False, True]))}
+            "future_source": draw(st.sampled_from([False, False, False, True])),
+            # a coarse file-system clock: consecutive touch events may get the same timestamp
+            "coarse": draw(st.lists(st.booleans(), max_size=12))}
 
 
 def strategy(tier):
@@ -121,10 +123,15 @@ def run_case(case):
             labels.add("clock-fallback")
             rest = sorted(set(changed) - set(order), key=lambda k: after[k][3])
             order = sorted(set(order) | set(rest), key=lambda k: after[k][3] if k in after else 0)
-        base = proj.tick
+        coarse = list(case.get("coarse", []))
+        first = True
         for rel in order:
             if rel in after and rel != future:
-                proj.stamp(rel, proj.next_tick())
+                same = (not first) and coarse and coarse.pop(0)
+                if same:
+                    labels.add("coarse-clock-tie")
+                proj.stamp(rel, proj.tick if same else proj.next_tick())
+                first = False
         # --- status afterwards ------------------------------------------------------
         newfiles = {p: proj.tick_of(p) for p in R.files}
         desc2 = dict(desc, files=newfiles)
